@@ -50,6 +50,18 @@ def f1_cells():
             out.append(P(f"f1_{t}_{opname(op)}", "F1", Program([fn_main([("a", t), ("b", t)], "bool", [], Bin(op, a, b, "bool"))]), {"value"}))
         if t in FLT_T or INTS[t][1]:
             out.append(P(f"f1_{t}_neg", "F1", Program([fn_main([("a", t)], t, [], Un("-", a))]), {"value"}))
+    # operand evaluation order is observable without host calls when one operand assigns to a variable the other reads
+    for t in ["i32", "u8", "i64"]:
+        a, b = Var("a", t), Var("b", t)
+        x = Var("x", t)
+        for op in ["-", "+", "*", "<", "==", ">="]:
+            rt = "bool" if op in CMP else t
+            rhs_assigns = Block([Assign(x, Bin("+", x, b, t))], x, t)
+            out.append(P(f"f1_{t}_{opname(op)}_left_read_before_right_assign", "F1", Program([fn_main([("a", t), ("b", t)], rt, [Let("x", t, a)], Bin(op, x, rhs_assigns, rt))]), {"value"}))
+            lhs_assigns = Block([Assign(x, Bin("-", x, b, t))], x, t)
+            out.append(P(f"f1_{t}_{opname(op)}_left_assign_before_right_read", "F1", Program([fn_main([("a", t), ("b", t)], rt, [Let("x", t, a)], Bin(op, lhs_assigns, x, rt))]), {"value"}))
+        helper = FnDef("sub2", [("p", t), ("q", t)], t, Block([], Bin("-", Var("p", t), Var("q", t), t), t))
+        out.append(P(f"f1_{t}_call_args_read_order", "F1", Program([helper, fn_main([("a", t), ("b", t)], t, [Let("x", t, a)], Call("sub2", [x, Block([Assign(x, Bin("*", x, b, t))], x, t)], t))]), {"value"}))
     a, b = Var("a", "bool"), Var("b", "bool")
     for op in ["&&", "||", "==", "!="]:
         out.append(P(f"f1_bool_{opname(op)}", "F1", Program([fn_main([("a", "bool"), ("b", "bool")], "bool", [], Bin(op, a, b, "bool"))]), {"value"}))
@@ -379,6 +391,16 @@ def f6_cells():
         Match(o, [("Some", ["x"], Bin(">", peek(Var("x", T)), Lit("i32", 5), "bool"), one),
                   ("Some", ["x"], None, peek(Var("x", T))),
                   ("None", [], None, b)], "i32"))]), {"ledger", "value", "trace"}))
+    out.append(P("f6_match_arm_early_return", "F6", Program([fn_main([("a", "i32"), ("b", "i32")], "i32", [
+        Let("o", oty, If(Bin(">", a, zero, "bool"), Block([], Ctor(oty, "Some", [mk(a)]), oty), Block([], Ctor(oty, "None", []), oty), oty))],
+        Match(o, [("Some", ["x"], None, Block([ExprStmt(If(Bin(">", b, zero, "bool"), Block([ExprStmt(Ret(Bin("+", peek(Var("x", T)), Lit("i32", 100), "i32")))], None, "unit"), None, "unit"))], peek(Var("x", T)), "i32")),
+                  ("None", [], None, b)], "i32"))]), {"ledger", "value", "trace"}))
+    inner_fn = FnDef("inner", [("x", "i32"), ("y", "i32")], ("opt", "i32"), Block([
+        Let("t", T, mk(Var("x", "i32"))),
+        Let("v", "i32", Try(If(Bin(">", Var("y", "i32"), zero, "bool"), Block([], Ctor(("opt", "i32"), "Some", [Var("y", "i32")]), ("opt", "i32")), Block([], Ctor(("opt", "i32"), "None", []), ("opt", "i32")), ("opt", "i32")), "i32"))],
+        Ctor(("opt", "i32"), "Some", [Bin("+", peek(t), Var("v", "i32"), "i32")]), ("opt", "i32")))
+    out.append(P("f6_question_mark_with_live_value", "F6", Program([inner_fn, fn_main([("a", "i32"), ("b", "i32")], "i32", [],
+        Match(Call("inner", [a, b], ("opt", "i32")), [("Some", ["r"], None, Var("r", "i32")), ("None", [], None, zero)], "i32"))]), {"ledger", "value", "trace"}))
     ety = ("enum", "Two")
     out.append(P("f6_enum_two_payloads", "F6", Program([fn_main([("a", "i32"), ("b", "i32")], "i32", [
         Let("e", ety, If(Bin(">", a, b, "bool"), Block([], Ctor(ety, "Both", [mk(a), mk(b)]), ety), Block([], Ctor(ety, "One", [mk(a)]), ety), ety)),
@@ -415,9 +437,22 @@ def f7_cells():
         "block_in_operand": ([], Bin("+", Block([ExprStmt(em(a))], pu(b), t), Block([ExprStmt(em(c))], pu(a), t), t), []),
         "emit7_positions": ([ExprStmt(Host("emit7", [Lit("u8", 1), Lit("i64", -2), Lit("u16", 3), pu(a), Lit("u64", 5), Lit("i8", -6), Lit("u32", 7)], "unit"))], b, []),
     }
+    for op in ["+", "-", "*", "<", "<=", "==", "!="]:
+        rt = "bool" if op in CMP else t
+        body = lambda e: e if rt == t else If(e, Block([], Lit(t, 1), t), Block([], Lit(t, 0), t), t)
+        cases[f"operands_nested_right_{opname(op)}"] = ([], body(Bin(op, pu(a), pu(pu(b)), rt)), [])
+        cases[f"operands_nested_sum_{opname(op)}"] = ([], body(Bin(op, pu(a), Bin("+", pu(b), pu(c), t), rt)), [])
+        cases[f"operands_right_returns_{opname(op)}"] = ([], body(Bin(op, pu(a), Block([ExprStmt(If(Bin(">", b, Lit(t, 0), "bool"), Block([ExprStmt(Ret(Lit(t, 7)))], None, "unit"), None, "unit"))], pu(c), t), rt)), [])
     for name, (stmts, e, helpers) in cases.items():
         recs = {"Tri": [("x", t), ("y", t), ("z", t)]} if name == "record_fields" else {}
         out.append(P(f"f7_{name}", "F7", Program(helpers + [fn_main([("a", t), ("b", t), ("c", t)], t, stmts, e)], records=recs), {"trace", "value"}))
+    # enum constructor arguments (multi-field variant) and nested effects
+    ety = ("enum", "Pair")
+    out.append(P("f7_enum_ctor_args", "F7", Program([fn_main([("a", t), ("b", t), ("c", t)], t, [Let("e", ety, Ctor(ety, "A", [pu(a), pu(pu(b)), pu(c)]))],
+        Match(Var("e", ety), [("A", ["p", "q", "r"], None, Bin("-", Bin("-", Var("p", t), Var("q", t), t), Var("r", t), t)), ("B", [], None, Lit(t, 0))], t))],
+        enums={"Pair": [("A", [t, t, t]), ("B", [])]}), {"trace", "value"}))
+    out.append(P("f7_option_ctor_arg", "F7", Program([fn_main([("a", t), ("b", t), ("c", t)], t, [Let("o", ("opt", t), Ctor(("opt", t), "Some", [Bin("+", pu(a), pu(pu(b)), t)]))],
+        Match(Var("o", ("opt", t)), [("Some", ["p"], None, Var("p", t)), ("None", [], None, c)], t))]), {"trace", "value"}))
     # match guards in source order with effects
     ot = ("opt", t)
     pick = FnDef("pick", [("x", t), ("y", t)], ot, Block([], If(Bin(">", Var("x", t), Var("y", t), "bool"), Block([], Ctor(ot, "Some", [Var("x", t)]), ot), Block([], Ctor(ot, "None", []), ot), ot), ot))
@@ -427,6 +462,12 @@ def f7_cells():
         ("Some", ["v"], Bin(">", pu(v), Lit(t, 100), "bool"), Lit(t, 2)),
         ("Some", ["v"], None, Block([ExprStmt(em(v))], v, t)),
         ("None", [], None, Block([ExprStmt(em(c))], c, t))], t))]), {"trace", "value"}))
+    # a guarded wildcard arm written above the arms naming the variant
+    out.append(P("f7_match_leading_wildcard_guard", "F7", Program([pick, fn_main([("a", t), ("b", t), ("c", t)], t, [], Match(Call("pick", [pu(a), pu(b)], ot), [
+        ("_", [], Bin(">", pu(c), Lit(t, 0), "bool"), Lit(t, 1)),
+        ("Some", ["v"], Bin(">", pu(Bin("-", v, Lit(t, 5), t)), Lit(t, 0), "bool"), Lit(t, 2)),
+        ("None", [], None, Lit(t, 3)),
+        ("_", [], None, Lit(t, 4))], t))]), {"trace", "value"}))
     return out
 
 
